@@ -4,7 +4,7 @@
 cd "$(dirname "$0")/.."
 ROOT=$(pwd)
 for d in seeded/*/; do
-  id=$(basename $d); p=${id%%-*}
+  id=$(basename $d); p=${id%%-*}; p=${p%r2}
   [ "$id" = "C03-m2" ] && p=C13
   [ "$id" = "C03-m1" ] && p=C09
   WT=/tmp/seedall-$$-$id
